@@ -517,6 +517,60 @@ func c12IsSelect(p *Prog, r *Report, or *overrideRoles) {
 	}
 	r.check(len(fb) == 0, rule, fwd.Name()+"->"+or.override.Name(), p.Pos(fwd.Pos()), "", strings.Join(dedupe(fb), " || "))
 
+	// the parser reports a SELECT for every text that starts with SELECT, handled or not, parseable
+	// or not: callers decide "is a read" by the type of the statement they get back
+	{
+		hq := p.Func("parser", "IsQueryHandled")
+		lex := p.Named("parser", "lexer")
+		tkSel := p.constOf("parser", "tkSelect")
+		s := newSim(p)
+		s.MaxNodes = 60000
+		s.Inline = func(f *ssa.Function) bool {
+			return f.Pkg == hq.Pkg && recvNamed(f) == nil && f.Parent() == nil && callsDirectlyOrIs(f, "isHandled")
+		}
+		s.Model = func(sm *Sim, st *State, call ssa.CallInstruction, callee *ssa.Function) []*State {
+			if callee != nil && isGeneratedLexer(callee) && recvNamed(callee) == lex {
+				if st.aux["first"] == "" {
+					st.aux["first"] = "1"
+					SetCallResult(st, call, avC(tkSel))
+				} else {
+					SetCallResult(st, call, top)
+				}
+				return []*State{st}
+			}
+			return nil
+		}
+		s.OnInstr = func(st *State, in ssa.Instruction) {
+			// package-level statement values (&SelectStatement{...}) are not nil
+			if ld, ok := in.(*ssa.UnOp); ok && ld.Op == token.MUL {
+				if g, ok := ld.X.(*ssa.Global); ok && g.Pkg == hq.Pkg {
+					if _, isPtr := ld.Type().Underlying().(*types.Pointer); isPtr {
+						st.vals[ld] = AV{K: avNonNil}
+						s.Pinned[ld] = true
+					}
+				}
+			}
+		}
+		outs := s.Run(hq, newState())
+		r.count("sim_states", s.Nodes)
+		var pb []string
+		n := 0
+		for _, o := range outs {
+			if o.Panic {
+				continue
+			}
+			n++
+			// (handled with an error is answered with that error, never forwarded: no statement needed)
+			if h, known := o.Ret.elem(0).isBool(); known && h && o.Ret.elem(2).K == avNonNil {
+				continue
+			}
+			if o.Ret.elem(1).K == avNil {
+				pb = append(pb, fmt.Sprintf("a text that starts with SELECT is reported without a statement (path ending at %s): the caller's `stmt.(*SelectStatement)` test fails, the read is taken for a write and its consistency is overridden", p.Pos(o.Pos)))
+			}
+		}
+		r.check(len(pb) == 0 && n > 0, rule, "parser.IsQueryHandled[SELECT]", p.Pos(hq.Pos()), fmt.Sprintf("%d paths, each reports a select statement", n), strings.Join(dedupe(pb), " || "))
+	}
+
 	sites := 0
 	for _, fn := range p.ScopedFuncs("proxy") {
 		fn := fn
@@ -804,4 +858,11 @@ func reencodeErrorPath(p *Prog, fn *ssa.Function) []string {
 		}
 	})
 	return bad
+}
+
+
+// callsDirectlyOrIs: helper for choosing what to inline in the IsQueryHandled simulation: the
+// statement-level functions (named isHandled...), not the selector/term parsers below them.
+func callsDirectlyOrIs(f *ssa.Function, prefix string) bool {
+	return strings.HasPrefix(f.Name(), prefix)
 }
